@@ -131,14 +131,15 @@ static result run_yscrambling(int learner, int loo, int fam) {
 #ifndef C06_FREE
 static void body(void) {
   int driver = vx_choose("driver", 5);
+  { const char *only = getenv("C06_ONLY_DRIVER"); if (only && *only) vx_require(driver == atoi(only)); }   /* calibration aid, never set by run_check */
   if (driver == 4) {            /* D: YScrambling */
     int learner = vx_choose("learner", 2), loo = vx_choose("validation", 2), fam = vx_choose("data", 2);
     if (!vx_thorough()) vx_require(fam == 0 && learner == 1);   /* quick: MLR, one data set, both validation kinds */
     memset(STREAM, 0, sizeof STREAM); memset(DRAWS, 0, sizeof DRAWS); LAST_SEED = 0; SINCE_SEED = 0; vs_prune_cb = 0;
     static result refd[2][2][2]; static char haved[2][2][2];
     if (!haved[learner][loo][fam]) { vs_begin(1, 0); refd[learner][loo][fam] = run_yscrambling(learner, loo, fam); vs_end(); haved[learner][loo][fam] = 1; }
-    vs_preemption_bound = vx_thorough() ? 2 : 1;
-    vs_begin(0, vx_thorough() ? 100 : 12); result r = run_yscrambling(learner, loo, fam); vs_end(); vx_transition(1);
+    vs_preemption_bound = 1;
+    vs_begin(0, vx_thorough() ? 20 : 12); result r = run_yscrambling(learner, loo, fam); vs_end(); vx_transition(1);
     char key[96]; snprintf(key, sizeof key, "schedule|YScrambling|%s,%s", LNAME[learner], loo ? "LOO" : "bootstrap");
     vx_check(same_bits(&r, &refd[learner][loo][fam]), key, "y-scrambling table under this schedule differs from the default schedule (max rel diff %g)", reldiff(&r, &refd[learner][loo][fam]));
     vx_outcome(r.h); free(r.v); return;
@@ -154,7 +155,7 @@ static void body(void) {
     result *ref = reference(learner, nw, nw, groups, nobj, fam);
     result *seq = reference(learner, 1, nw, groups, nobj, fam);
     char key[96];
-    vs_begin(0, driver == 0 ? 0 : 400);
+    vs_begin(0, driver == 0 ? 0 : 150);
     result r = run_bootstrap(learner, nw, nw, groups, nobj, fam);
     vs_end(); vx_transition(1);
     snprintf(key, sizeof key, "schedule|BootstrapRandomGroupsCV|%s,%dworkers", LNAME[learner], nw);
@@ -214,7 +215,7 @@ int main(int argc, char **argv) {
   vx_describe("pass", "free-running real threads under ThreadSanitizer over the driver bodies (bootstrap CV with 2/4 workers, concurrent seeded callers, leave-one-out pools); a reported race terminates the worker and is attributed to the path");
   vx_set_shard_depth(2);
 #else
-  vx_describe("drivers", "A: BootstrapRandomGroupsCV 2 workers x {PLS,MLR,LDA} x 2 data sets; B: 3 workers (decision horizon 400); C: two user threads, each one of {random_kfold_group_generator, train_test_split, KMeansppCenters} after seeding; E: nthreads in {1,2,3,4,6,8} with 24 iterations under the default schedule; D: YScrambling (PLS, MLR) x (LOO, bootstrap validation with its hard-coded 4 workers x 100 iterations), 1 scrambling iteration, decision horizon 12 (100 thorough; quick: MLR on one data set only), preemption bound 1 (2)");
+  vx_describe("drivers", "A: BootstrapRandomGroupsCV 2 workers x {PLS,MLR,LDA} x 2 data sets; B: 3 workers (decision horizon 150); C: two user threads, each one of {random_kfold_group_generator, train_test_split, KMeansppCenters} after seeding; E: nthreads in {1,2,3,4,6,8} with 24 iterations under the default schedule; D: YScrambling (PLS, MLR) x (LOO, bootstrap validation with its hard-coded 4 workers x 100 iterations), 1 scrambling iteration, decision horizon 12 (20 thorough; quick: MLR on one data set only), preemption bound 1");
   vx_describe("scheduling points", "pthread_create, thread exit, blocking pthread_join, entry of srand_/rand_/randInt/randDouble; exactly one thread runs at a time; enabled set ordered running-first then ascending id");
   vx_describe("bounds", "mode 0: all schedules with at most B preemptions (A, C: 2 quick / 3 thorough; B: 1 / 2), no state merging; mode 1: unbounded preemptions with merging on the canonical state (per-thread run state, draws, hash of received values; last srand_ argument in global order and draws since), state cap 200000 (A, C in both tiers, B in thorough)");
   vx_describe("oracle", "every complete schedule: result bit-identical to the default schedule and within 1e-12 of the single-thread run; concurrent seeded callers each equal their stand-alone outcome");
